@@ -225,7 +225,12 @@ func (r *Replica) Exec(op *Op) J {
 		ev["key"] = r.queryKeyName(op.Path, data)
 		var resp abcitypes.ResponseQuery
 		SetStoreHeight(r.Height)
+		before := ""
+		if r.Opts.EVM && !r.NoProj {
+			before = StateDigest(r.App, r.KR)
+		}
 		pm := Call(func() { resp = r.App.Core.Query(abcitypes.RequestQuery{Path: op.Path, Data: data, Height: op.QH}) })
+		ev["stateSame"] = before == "" || before == StateDigest(r.App, r.KR)
 		ev["panic"] = pm
 		ev["inblock"] = r.InBlock
 		ev["lastH"] = small(r.Height)
